@@ -73,7 +73,7 @@ func C03(v *View) []Violation {
 			}
 		}
 		// absolute clause: API truth at the time of the call
-		if t, ok := c.Target.(*v1.Pod); ok && t != nil && c.OK() && d.OrdOK && v.Desired[d.Ord] && !IsDead(t) && !IsTerminating(t) {
+		if t, ok := c.Target.(*v1.Pod); ok && t != nil && c.Applied && d.OrdOK && v.Desired[d.Ord] && !IsDead(t) && !IsTerminating(t) {
 			upToDate := false
 			switch {
 			case v.Strategy == "OnDelete":
